@@ -57,6 +57,7 @@ __CPROVER_requires(__CPROVER_is_fresh(self, sizeof(*self)) && __CPROVER_is_fresh
 __CPROVER_ensures(SIDE(*loc) && (isClockwise ? *loc == CW_NEXT(__CPROVER_old(*loc)) : CW_NEXT(*loc) == __CPROVER_old(*loc)))
 __CPROVER_assigns(*loc, self->n_add, self->n_results)
 //@end
+Location g_start; bool g_start_set; size_t g_lb; bool g_lb_set;   /* ghost: start state; index just after the nearest earlier off-boundary vertex */
 #define CDIST(cw, from, to) ((cw) ? (((int)(to) - (int)(from) + 4) % 4) : (((int)(from) - (int)(to) + 4) % 4))
 //@extract file=CPP/Clipper2Lib/src/clipper.rectclip.cpp func=RectClip64::ExecuteInternal self=RectClipS byval=path vec=path rangefor=1
 //@presub /\bfirst_cross_\b/first_cross/ min=5
@@ -71,14 +72,20 @@ __CPROVER_assigns(*loc, self->n_add, self->n_results)
 //@sub /AddCorner\((\w+), (\w+)\);/AddCorner2(self, \1, \2);/ min=2
 //@sub /(?<![\w.])Add\(self->rect_as_path_\[k\]\);/vf_Add(self, vf_rect_pt(self, k));/
 //@sub /(?<![\w.])Add\(([^;]*)\);/vf_Add(self, \1);/ min=3
+//@sub /Location starting_loc = loc;/Location starting_loc = loc; g_start = loc; g_start_set = true;/
+//@sub /if \(i == 0\)/g_lb = i; g_lb_set = true; if (i == 0)/
 //@sub /ip == ip2/Point64_eq(ip, ip2)/
 //@sub /self->path_bounds_\.Contains\(self->rect_\)/vf_Contains(&self->path_bounds_, self->rect_)/
 //@sub /Path1ContainsPath2\(path, self->rect_as_path_\)/vf_Path1ContainsPath2(path)/
 //@sub /StartLocsAreClockwise\(self->start_locs_\)/vf_StartLocsAreClockwise(self)/
 //@sub /AddToEdge\(self->edges_\[k \* 2\], self->results_\[0\]\);/vf_AddToEdge(self, k * 2);/
-__CPROVER_requires(__CPROVER_is_fresh(self, sizeof(*self)) && path.size < ((size_t)1 << 40) && __CPROVER_is_fresh(path.data, path.size * sizeof(Point64)) && self->rect_.left < self->rect_.right && self->rect_.top < self->rect_.bottom)
+__CPROVER_requires(__CPROVER_is_fresh(self, sizeof(*self)) && path.size < ((size_t)1 << 40) && __CPROVER_is_fresh(path.data, path.size * sizeof(Point64)) && self->rect_.left < self->rect_.right && self->rect_.top < self->rect_.bottom && !g_start_set && !g_lb_set)
 __CPROVER_ensures(path.size == 0 ==> self->n_add == __CPROVER_old(self->n_add))
-__CPROVER_assigns(self->n_add, self->n_results, self->start_locs_.size)
+/* start state of the location machine = where the (cyclic) path comes from when it reaches vertex 0: Inside when the last vertex is strictly inside; when the last vertex lies on the boundary, Inside exactly when the nearest earlier vertex off the boundary is strictly inside (the path touches the boundary from within) */
+__CPROVER_ensures((g_start_set && !g_lb_set) ==> ((g_start == Location_Inside) == STRICTLY_INSIDE(self->rect_, path.data[path.size - 1])))
+__CPROVER_ensures(g_lb_set ==> (g_lb <= path.size - 1 && !STRICTLY_INSIDE(self->rect_, path.data[path.size - 1])))
+__CPROVER_ensures((g_start_set && g_lb_set) ==> (g_lb >= 1 && (g_start == Location_Inside) == STRICTLY_INSIDE(self->rect_, path.data[g_lb - 1])))
+__CPROVER_assigns(self->n_add, self->n_results, self->start_locs_.size, g_start, g_start_set, g_lb, g_lb_set)
 //@loop 1
 __CPROVER_assigns(i, prev)
 __CPROVER_loop_invariant(i <= highI && LOC_OK(prev))
